@@ -146,7 +146,8 @@ def _prove(conds, goal, depth=0, level=1, timeout_ms=None, seeds=(0, 7, 23), gro
         def scan(t, d=0):
             if d > 30 or len(wit) >= 4 or not z3.is_app(t):
                 return
-            if t.decl().kind() == z3.Z3_OP_UNINTERPRETED and t.num_args() == 1 and z3.is_int(t) and any(z3.eq(t.arg(0), sk) for sk in skolems):
+            if t.decl().kind() == z3.Z3_OP_UNINTERPRETED and t.num_args() == 1 and z3.is_int(t) and not z3.is_int(t.arg(0)) \
+                    and any(z3.eq(t.arg(0), sk) for sk in skolems):
                 wit[str(t)] = t
             for ch in t.children():
                 scan(ch, d + 1)
